@@ -118,8 +118,7 @@ def run(ctx: Ctx):
             ok_ls = False
             continue
         args = v0.args[1:] if v0.op == "call" else v0.args[2:]
-        dim = [a.args[1] for a in args if a.op == "kw" and a.args[0] == "dim"] or [a for a in args[1 if v0.op == "call" else 0:] if a.op == "const"]
-        if not dim or not vg.is_const(dim[0], -1):
+        if not nf.axis_is(v0, -1):
             ok_ls = False
         L = v0.args[1] if v0.op == "call" else v0.args[0]
     ctx.ob("C10.a", "process_logits:return=log_softmax(dim=-1)", ok_ls and len(rets) == 1, fi.loc,
@@ -203,8 +202,7 @@ def run(ctx: Ctx):
                 cums = [a for a in c[0].side_atoms(False) if a.op == "meth" and a.args[1] == "cumsum"]
                 if cums:
                     sm = nf.strip(cums[0].args[0])
-                    dimk = [q.args[1] for q in cums[0].args[2:] if q.op == "kw" and q.args[0] == "dim"]
-                    cum_ok = sm.op == "meth" and sm.args[1] == "softmax" and dimk and vg.is_const(dimk[0], -1) and \
+                    cum_ok = sm.op == "meth" and sm.args[1] == "softmax" and nf.axis_is(cums[0], -1) and nf.axis_is(sm, -1) and \
                         nf.strip(sm.args[0]).op == "sub" and vg.is_const(nf.strip(sm.args[0]).args[1], 0)
             ok = vg.is_const(dim, -1) and asc and same_sort and thr and cum_ok and src is base
             why = (f"ascending sort: {asc}; cumulative softmax of the sorted values on dim -1: {cum_ok}; removes cum <= 1 - top_p (non-strict, last element kept): {thr}; "
@@ -224,7 +222,7 @@ def selection(ctx: Ctx):
     fr = it.run_function(fi)
     ret = fr.ret
     ok = isinstance(ret, vg.S) and ret.op == "meth" and ret.args[1] == "argmax" and ret.args[0].op == "param" and ret.args[0].args[0] == "logprobs" and \
-        any(a.op == "kw" and a.args[0] == "dim" and vg.is_const(a.args[1], -1) for a in ret.args[2:])
+        nf.axis_is(ret, -1)
     ctx.ob("C10.c", "greedy=argmax(logprobs, dim=-1)", ok, fi.loc, f"returns {vg.show(ret, 3)}", construct="DecodingStrategy.greedy:argmax")
     guards = [e for e in it.events if e.kind == "assert" and "mask" in vg.params_of(e.data) and any(n is ret for n in vg.walk(e.data))]
     pol = set().union(*[nf.bool_signs(e.data, "mask") for e in guards]) if guards else set()
